@@ -122,19 +122,38 @@ def decode (b : Bytes) : Outcome (Table × Cost) := do
 
 /-! ## format 0 -/
 
-/-- `decodeFormat0(data, code2rune)` (format0.go:28-42); `code2rune` is never used.  The copy
-into the `[256]byte` array is charged with 256 steps and 256 elements. -/
+/-- `decodeFormat0(data, nil)` (format0.go:28-50, the branch `code2rune == nil`): a `*Format0`.
+The copy into the `[256]byte` array is charged with 256 steps and 256 elements. -/
 def decodeFormat0 (data : Bytes) : Outcome (Bytes × Cost) := do
-  let d ← slice "format0.go:33#data[6:]" data 6 data.length
+  let d ← slice "format0.go:29#data[6:]" data 6 data.length
   if d.length ≠ 256 then .err "length" else
   -- res := &Format0{}; copy(res.Data[:], data): res.Data[:] slices a [256]byte array
   .ok (d, (Cost.zero.tick 256).mem 256)
 
-/-- `Format0.Lookup(r)` (format0.go:50-55, as repaired: `if r < 0 || r > 255 { return 0 }`) for a
+/-- the loop format0.go:38-42, `for c, gid := range data { if gid != 0 { res[uint16(code2rune(c))] =
+glyph.ID(gid) } }`: a `range` over the slice has no index expression and the map write cannot
+panic, so the loop is a pure function; it lists the map writes in loop order (`c` = index of the
+head of the remaining bytes). -/
+def loop0 (c2r : Nat → Nat) : Bytes → Nat → Cost → List (Nat × Nat) × Cost
+  | [], _, c => ([], c)
+  | g :: rest, i, c =>
+    let r := loop0 c2r rest (i + 1) (if g.toNat ≠ 0 then c.tick.mem 1 else c.tick)
+    (if g.toNat ≠ 0 then ((c2r i) % 65536, g.toNat) :: r.1 else r.1, r.2)
+
+/-- `decodeFormat0(data, code2rune)` with `code2rune != nil` (format0.go:28-44, since repair
+0c896bc): the same slice and length check, then a unicode-indexed `Format4` map; `c2r` = the
+code-to-rune function, taken as given (as in `decodeFormat6`). -/
+def decodeFormat0C2r (c2r : Nat → Nat) (data : Bytes) : Outcome (List (Nat × Nat) × Cost) := do
+  let d ← slice "format0.go:29#data[6:]" data 6 data.length
+  if d.length ≠ 256 then .err "length" else
+  -- res := Format4{}
+  .ok (loop0 c2r d 0 (Cost.zero.mem 1))
+
+/-- `Format0.Lookup(r)` (format0.go:58-63, as repaired: `if r < 0 || r > 255 { return 0 }`) for a
 rune `r` (an `int32`) -/
 def lookup0 (d : Bytes) (r : Int) : Outcome Nat :=
   if r < 0 ∨ r > 255 then .ok 0 else do
-    let v ← idx "format0.go:54#cmap.Data[r]" d r.toNat
+    let v ← idx "format0.go:62#cmap.Data[r]" d r.toNat
     pure v.toNat
 
 /-- `Format0.Lookup(r)` BEFORE the repair: the guard `r > 255` did not exclude negative runes
@@ -223,9 +242,13 @@ def macRoman (code : Nat) : Nat := SfntV.CmapTable.macRoman code
 /-- subtable.go:53-63, the `decoders` map; `dec4` / `dec12` stand for `decodeFormat4` /
 `decodeFormat12` -/
 def decoders (dec4 dec12 : Dec Sub) (format : Nat) : Option (Dec Sub) :=
-  if format = 0 then some fun d _ => do
-    let (x, _) ← decodeFormat0 d
-    pure (.f0 x)
+  if format = 0 then some fun d mac =>
+    if mac then do
+      let (w, _) ← decodeFormat0C2r macRoman d
+      pure (.m16 w)
+    else do
+      let (x, _) ← decodeFormat0 d
+      pure (.f0 x)
   else if format = 4 then some dec4
   else if format = 6 then some fun d mac => do
     let (w, _) ← decodeFormat6 (if mac then macRoman else id) d
